@@ -1542,4 +1542,117 @@ example :
     accessIn (buildO false objWorld victim).1 (buildO false objWorld victim).2.own false nOs [nExit] = some 9 := by
   decide
 
+/-! ## 11. Options that do not speak about globals
+
+A real option sequence mixes the global-related options with others (`WithConcurrency`,
+`WithFilename`, `WithOS`, …: `XOpt.flag k`).  For the code as it is they are irrelevant to the
+globals: the configuration is the one its global-related options alone determine, so every
+theorem of section 6 holds for the mixed sequence, wherever the other options stand. -/
+
+theorem applyXOpts_foldl_core (xs : List XOpt) (s : XCfg) :
+    (xs.foldl applyXOpt s).c = (core xs).foldl applyOpt s.c := by
+  induction xs generalizing s with
+  | nil => rfl
+  | cons x xs ih =>
+    cases x with
+    | opt o => simp only [List.foldl_cons, core]; rw [ih]; rfl
+    | flag k => simp only [List.foldl_cons, core]; rw [ih]; rfl
+
+/-- the global-related fields after a mixed sequence are those its global-related options
+    leave -/
+theorem applyXOpts_core (xs : List XOpt) : (applyXOpts xs).c = applyOpts (core xs) := by
+  unfold applyXOpts applyOpts
+  rw [applyXOpts_foldl_core]
+
+theorem mem_core (xs : List XOpt) (o : Opt) : o ∈ core xs ↔ XOpt.opt o ∈ xs := by
+  induction xs with
+  | nil => simp [core]
+  | cons x xs ih =>
+    cases x with
+    | opt p => simp [core, ih]
+    | flag k => simp [core, ih]
+
+/-- **Other options are irrelevant to the globals**: for every mixed sequence the initialised
+    configuration (globals, every module table, every back-pointer) is the one of its
+    global-related options alone — whichever other options it contains and wherever. -/
+theorem xoptseq_flags_irrelevant (xs : List XOpt) (dflt : Table) (mods : List (Id × Table))
+    (back : List (Id × Id)) (ds : List Name) (os : Table) :
+    initFromX (applyXOpts xs) dflt mods back ds os =
+      initFrom (applyOpts (core xs)) dflt mods back ds os := by
+  unfold initFromX
+  rw [applyXOpts_core]
+
+/-- **The effect of a removal does not depend on an unrelated option**: two sequences with the
+    same global-related options give the same configuration. -/
+theorem xoptseq_same_core (xs ys : List XOpt) (h : core xs = core ys) (dflt : Table)
+    (mods : List (Id × Table)) (back : List (Id × Id)) (ds : List Name) (os : Table) :
+    initFromX (applyXOpts xs) dflt mods back ds os =
+      initFromX (applyXOpts ys) dflt mods back ds os := by
+  rw [xoptseq_flags_irrelevant, xoptseq_flags_irrelevant, h]
+
+/-- **The code meets the Spec for mixed option sequences.** -/
+theorem xoptseq_meets_spec (xs : List XOpt) (dflt : Table) (mods : List (Id × Table))
+    (back : List (Id × Id)) (ds : List Name) (os : Table) (n : Name)
+    (hn : undotted n = true)
+    (hds : EnumSet (applyXOpts xs).c.denylist ds) (hos : EnumMap (applyXOpts xs).c.overrides os) :
+    allowedTop (core xs) n (tget (initFromX (applyXOpts xs) dflt mods back ds os).globals n) = true := by
+  rw [xoptseq_flags_irrelevant]
+  rw [applyXOpts_core] at hds hos
+  exact optseq_meets_spec (core xs) dflt mods back ds os n hn hds hos
+
+/-- **A denied name stays denied, whatever other options the sequence contains**: if
+    `WithoutGlobal(n)` occurs anywhere in the mixed sequence and no override for `n` is in
+    force, `n` is unbound in the end. -/
+theorem xoptseq_denied_stays_denied (xs : List XOpt) (dflt : Table) (mods : List (Id × Table))
+    (back : List (Id × Id)) (ds : List Name) (os : Table) (n : Name)
+    (hn : undotted n = true)
+    (hds : EnumSet (applyXOpts xs).c.denylist ds) (hos : EnumMap (applyXOpts xs).c.overrides os)
+    (hden : XOpt.opt (.without n) ∈ xs) (hov : lastOverride (core xs) n = none) :
+    tget (initFromX (applyXOpts xs) dflt mods back ds os).globals n = none := by
+  rw [xoptseq_flags_irrelevant]
+  rw [applyXOpts_core] at hds hos
+  have hd : deniedIn (core xs) n = true := by
+    unfold deniedIn
+    exact List.contains_iff_mem.mpr ((mem_core xs _).mpr hden)
+  exact optseq_denied_stays_denied (core xs) dflt mods back ds os n hn hds hos hd hov
+
+/-- … and no identifier or import path through `n` exists. -/
+theorem xoptseq_denied_access_fails (xs : List XOpt) (dflt : Table) (mods : List (Id × Table))
+    (back : List (Id × Id)) (ds : List Name) (os : Table) (n : Name)
+    (hn : undotted n = true)
+    (hds : EnumSet (applyXOpts xs).c.denylist ds) (hos : EnumMap (applyXOpts xs).c.overrides os)
+    (hden : XOpt.opt (.without n) ∈ xs) (hov : lastOverride (core xs) n = none)
+    (imp : Bool) (attrs : List Name) :
+    access (initFromX (applyXOpts xs) dflt mods back ds os) imp n attrs = none := by
+  rw [xoptseq_flags_irrelevant]
+  rw [applyXOpts_core] at hds hos
+  have hd : deniedIn (core xs) n = true := by
+    unfold deniedIn
+    exact List.contains_iff_mem.mpr ((mem_core xs _).mpr hden)
+  exact optseq_denied_access_fails (core xs) dflt mods back ds os n hn hds hos hd hov imp attrs
+
+/-- With `WithoutDefaultGlobals` and no host global, no override: the globals are empty —
+    whatever other options are given. -/
+theorem xoptseq_noDefaults_empty (xs : List XOpt) (dflt : Table) (mods : List (Id × Table))
+    (back : List (Id × Id))
+    (hcore : core xs = [.noDefaults]) :
+    (initFromX (applyXOpts xs) dflt mods back [] []).globals = [] := by
+  rw [xoptseq_flags_irrelevant, hcore]
+  rfl
+
+/-- CONTRAST: a last init step that, under flag 0, re-installs the default object of a missing
+    name brings a removed name back (the Spec rejects the binding), and whether the removal
+    works then depends on the unrelated option — with the code as it is (`initFromX`) the name
+    is unbound in both sequences.  ([115] = "s", default object 7.) -/
+theorem restoring_flag_defeats_denial :
+    let xs := [XOpt.flag 0, XOpt.opt (.without [115])]
+    let ys := [XOpt.opt (.without [115])]
+    let dflt : Table := [([115], 7)]
+    core xs = core ys ∧
+    tget (initFromX (applyXOpts xs) dflt [] [] [[115]] []).globals [115] = none ∧
+    tget (initFromXRestoring 0 [[115]] (applyXOpts xs) dflt [] [] [[115]] []).globals [115] = some 7 ∧
+    allowedTop (core xs) [115] (some 7) = false ∧
+    tget (initFromXRestoring 0 [[115]] (applyXOpts ys) dflt [] [] [[115]] []).globals [115] = none := by
+  decide
+
 end Risor.C11
